@@ -20,7 +20,9 @@ theorem C06_incoming_at_most_one (f : Flags) (enc : Bool) (s : Stanza) : (recvSt
 theorem C06_outgoing_at_most_one (f : Flags) (e : Entity) (h : Consistent e) : sendAll (sendHandlers f) e ≤ 1 :=
   send_at_most_one f e h
 
-/-- Each incoming stanza of a supported kind produces exactly one entity of its kind (single-owner tags). -/
+/-- Each incoming stanza of a supported kind produces exactly one entity of its kind (single-owner tags).
+    EVERY stream error stanza — of a known kind (conflict / ack / xml-not-well-formed) or of any other
+    kind — is delivered as exactly one `.streamError` entity, and nothing raises. -/
 theorem C06_incoming_exactly_one_simple (f : Flags) (enc : Bool) (s : Stanza) :
     (s.tag = .receipt → recvStack f enc s = ({ ups := [.receipt] }, false)) ∧
     (s.tag = .ack → recvStack f enc s = ({ ups := [.ack] }, false)) ∧
@@ -29,19 +31,25 @@ theorem C06_incoming_exactly_one_simple (f : Flags) (enc : Bool) (s : Stanza) :
     (s.tag = .streamFeatures → recvStack f enc s = ({ ups := [.streamFeatures] }, false)) ∧
     (s.tag = .success → recvStack f enc s = ({ ups := [.success], evts := [.authed] }, false)) ∧
     (s.tag = .failure → recvStack f enc s = ({ ups := [.failure], evts := [.disconnectRequest] }, false)) ∧
-    (s.tag = .streamError → s.errKnown = true → recvStack f enc s = ({ ups := [.streamError] }, false)) ∧
+    (s.tag = .streamError → recvStack f enc s = ({ ups := [.streamError] }, false)) ∧
     (s.tag = .other → recvStack f enc s = ({}, false)) :=
   recv_simple f enc s
 
 /-- Messages: text / extended text by payload, media by media type (needs the media module; left out ⇒
-    nothing, and no error), pure key-distribution payloads produce nothing. -/
+    nothing, and no error) provided the payload is not a sender key distribution on its own; pure
+    key-distribution payloads produce nothing — on the text path and, last clause, in a message of type
+    media as well: it never surfaces (no entity, no receipt, no error), whatever the media kind attribute
+    says and whether or not the media module is present. -/
 theorem C06_incoming_messages (f : Flags) (enc : Bool) (s : Stanza) (h : MessageWF s) :
     (s.media = .absent → s.payload = .conversation → recvStack f enc s = ({ ups := [.text] }, false)) ∧
     (s.media = .absent → s.payload = .extendedText → recvStack f enc s = ({ ups := [.extendedText] }, false)) ∧
     (s.media = .absent → s.payload = .keyDistributionOnly → recvStack f enc s = ({}, false)) ∧
     (s.media = .absent → s.payload = .other → recvStack f enc s = ({ downs := [.messageReceipt] }, false)) ∧
-    (∀ e, mediaEnt s.media = some e → recvStack f enc s = ({ ups := if f.media then [e] else [] }, false)) ∧
-    (s.media = .other → recvStack f enc s = ({ downs := if f.media then [.messageReadReceipt] else [] }, false)) :=
+    (∀ e, mediaEnt s.media = some e → s.payload ≠ .keyDistributionOnly →
+      recvStack f enc s = ({ ups := if f.media then [e] else [] }, false)) ∧
+    (s.media = .other → s.payload ≠ .keyDistributionOnly →
+      recvStack f enc s = ({ downs := if f.media then [.messageReadReceipt] else [] }, false)) ∧
+    (s.mtype = .media → s.hasProto = true → s.payload = .keyDistributionOnly → recvStack f enc s = ({}, false)) :=
   recv_message f enc s h
 
 /-- Notifications by owner; group notifications need the groups module (left out ⇒ only the ack). -/
@@ -85,6 +93,9 @@ theorem C06_outgoing_exactly_one (f : Flags) (e : Entity) (h : Consistent e) :
 
 /- Non-vacuity -/
 example : MessageWF { tag := .message, hasProto := true, mtype := .media, media := .image } := by
+  refine ⟨rfl, rfl, ?_⟩; decide
+example : MessageWF { tag := .message, hasProto := true, mtype := .media, media := .image,
+                      payload := .keyDistributionOnly } := by
   refine ⟨rfl, rfl, ?_⟩; decide
 example : Consistent { tag := .iq, cls := .groupsRequest, xmlns := .wg2 } := by
   unfold Consistent; decide
